@@ -75,9 +75,72 @@ def eo_task(args):
     return out
 
 
+def eo_real_task(args):
+    """the same comparison on the calls of Controller.evaluate_objective made by real dfols.solve() runs"""
+    seed, count = args
+    import warnings
+    import dfols, dfols.controller as dc, dfols.model as dm
+    from .. import histcorr
+    rng = np.random.default_rng(seed)
+    out = []
+    orig_eo, orig_els = dc.Controller.evaluate_objective, dc.eval_least_squares_with_regularisation
+    cur = {}
+
+    def els(objfun, x, h, **kw):
+        r, o = orig_els(objfun, x, h, **kw)
+        if cur:
+            cur['log'].append((np.array(x, dtype=float).copy(), int(kw.get('eval_num', 0)), int(kw.get('pt_num', 0))))
+            cur['answers'].append((np.array(r, dtype=float).copy(), float(o)))
+        return r, o
+
+    def eo(self, x, ns, params):
+        if self.h is not None or cur:
+            return orig_eo(self, x, ns, params)
+        M = self.model
+        cur.update(log=[], answers=[], pre=(int(self.nf), int(self.nx), int(self.maxfun)), x=np.array(x, dtype=float).copy(), ns=int(ns),
+                   sc=None if self.scaling_changes is None else (np.array(self.scaling_changes[0], dtype=float).copy(), np.array(self.scaling_changes[1], dtype=float).copy()),
+                   tol=(float(M.objbeg), float(M.abs_tol), float(M.rel_tol)), m=int(M.m()))
+        try:
+            rv, ob, run, ex = orig_eo(self, x, ns, params)
+            flat = []
+            for (xx, e, p) in cur['log']:
+                flat += IO.fl_vec(xx) + [e, p]
+            exp = [int(self.nf), int(self.nx), int(run), (-9 if ex is None else int(ex.flag)), IO.hashZ(flat), IO.hashZ(IO.fl_mat(rv))]
+            nf, nx, maxfun = cur['pre']
+            sc = cur['sc']
+            sclit = 'None' if sc is None else '(Some (%s, %s))' % (IO.vlit(sc[0]), IO.vlit(sc[1]))
+            lit = 'eo_case %d %d %d %d %d %s %s %s %s %s [%s]' % (cur['m'], nf, nx, maxfun, cur['ns'], IO.vlit(cur['x']), sclit, IO.flit(cur['tol'][0]), IO.flit(cur['tol'][1]),
+                                                              IO.flit(cur['tol'][2]), '; '.join('(%s, %s)' % (IO.vlit(a[0]), IO.flit(a[1])) for a in cur['answers']))
+            if len(recs) < 12:            # a few calls per run, spread over the run
+                recs.append((lit, exp, dict(nf=nf, maxfun=maxfun, ns=cur['ns'], run=int(run), flag=exp[3], real=True)))
+            return rv, ob, run, ex
+        finally:
+            cur.clear()
+    old = (dc.sumsq, dm.sumsq)
+    dc.Controller.evaluate_objective, dc.eval_least_squares_with_regularisation = eo, els
+    dc.sumsq = dm.sumsq = IO.seq_sumsq
+    try:
+        for _ in range(count):
+            spec = histcorr.gen_run(rng)
+            spec['lam'] = 0.0
+            if rng.random() < 0.5:
+                spec['nsamples'] = int(rng.integers(2, 5))
+                spec['maxfun'] = int(rng.integers(5, 25))          # budgets that run out in the middle of a point's samples
+            recs = []
+            with warnings.catch_warnings(), np.errstate(all='ignore'):
+                warnings.simplefilter('ignore')
+                histcorr.run_plain(spec)
+            out += recs
+    finally:
+        dc.Controller.evaluate_objective, dc.eval_least_squares_with_regularisation = orig_eo, orig_els
+        dc.sumsq, dm.sumsq = old
+    return out
+
+
 def correspondence(ctx):
     n = ctx.scale(320, 4800)
     res = C.parallel(eo_task, [(ctx.seed * 31 + i, n // 16) for i in range(16)], timeout_each=300)
+    res += C.parallel(eo_real_task, [(ctx.seed * 37 + i + 1000, ctx.scale(3, 40)) for i in range(16)], timeout_each=600)
     cases = []
     for t, st, r in res:
         if st != 'ok':
@@ -102,6 +165,7 @@ def correspondence(ctx):
         dist[k] = dist.get(k, 0) + 1
         dist['flag%d' % d['flag']] = dist.get('flag%d' % d['flag'], 0) + 1
     ctx.cov['correspondence_distribution'] = dist
+    ctx.cov['correspondence_calls_from_real_solve_runs'] = sum(1 for (_, _, d) in cases if d.get('real'))
     if len(flags) != len(cases):
         ctx.oblige('correspondence:evaluate_objective', False, 'evaluated %d of %d cases' % (len(flags), len(cases)))
     elif bad:
